@@ -336,6 +336,16 @@ impl KeyKeeperSharedState {
         }
     }
 
+    /// Get the guid and the value of the current key from one snapshot of the state (a single message),
+    /// so that a signature never pairs the id of one key with the secret of another while the key is rotated.
+    pub async fn get_current_key_guid_and_value(&self) -> Result<(Option<String>, Option<String>)> {
+        match self.get_key().await {
+            Ok(Some(k)) => Ok((Some(k.guid), Some(k.key))),
+            Ok(None) => Ok((None, None)),
+            Err(e) => Err(e),
+        }
+    }
+
     pub async fn get_current_key_incarnation(&self) -> Result<Option<u32>> {
         match self.get_key().await {
             Ok(Some(k)) => Ok(k.incarnationId),
